@@ -14,7 +14,7 @@ REAL = c02.REAL
 STUBS = c02.STUBS
 ASSUMPTIONS = ['delivery k of a victim is matched to its k-th accepted issue (causes are unique per issue)',
                'a process is "finished" for clause 5 when Process.is_alive is False at the call']
-PROBES = ['interrupted_while_waiting_on_condition', 'intr_at_instant_target_due', 'ge3_pending_for_one_victim', 'victim_died_with_pending',
+PROBES = ['resource_requests', 'interrupted_while_waiting_on_condition', 'intr_at_instant_target_due', 'ge3_pending_for_one_victim', 'victim_died_with_pending',
           'victim_rewaits_same_event', 'interrupt_finished_refused', 'interrupt_self_refused',
           'cowaiter_kept_outcome', 'interrupt_before_first_statement_attempt']
 
@@ -37,6 +37,7 @@ def gen(rng, tier):
     w['ret'] = rng.choice([0, 1])
     w['raise'] = rng.choice([0, 0, 1])
     w['cond'] = rng.choice([0, 0, 1, 2])      # victims waiting on condition events
+    w['request'] = rng.choice([0, 0, 2, 4])   # victims waiting for (or holding) a slot of a shared resource
     prof.depth = rng.choice([0, 1])
     prof.handlers = rng.choice([['cont', 'rewait', 'ret', 'other', 'raise', 'none'],
                                 ['cont', 'rewait', 'rewait', 'other'], ['cont'], ['rewait', 'none', 'ret']])
@@ -180,6 +181,17 @@ def run(case):
         except AttributeError:
             ok, val = None, '<unavailable>'
         final[pid] = (alive, ok, val)
+    # a queued request a victim was interrupted on stays queued: only the program itself withdraws requests
+    if w.res is not None:
+        stats['resource_requests'] = 1
+        for pid, lb, req in w.requests:
+            if not req.triggered and id(req) not in w.withdrawn and req not in w.res.queue:
+                viol.append(('C04.4', 'the pending request %s of %s is no longer queued at the resource although the program '
+                             'never cancelled it: it can never be granted to a later re-yield' % (lb, pid)))
+                break
+        if quiescent and w.res.count < w.res.capacity and w.res.queue:
+            viol.append(('C04.4', 'the run ended with a free slot while request(s) %r are still queued' %
+                         ([env.label(q) for q in w.res.queue],)))
     # a condition a victim was interrupted on must still fire by its operands (for its other waiters / a re-yield)
     from . import c05
     v5, s5, _nt5, ch = c05.check(env.log, case, [])
